@@ -4,6 +4,8 @@ import (
 	"context"
 	"fmt"
 	"net/http"
+	"strconv"
+	"strings"
 	"time"
 
 	"github.com/thushan/olla/internal/adapter/converter"
@@ -17,12 +19,14 @@ import (
 	"github.com/thushan/olla/internal/core/ports"
 	"github.com/thushan/olla/internal/logger"
 	"github.com/thushan/olla/internal/router"
+	"github.com/thushan/olla/internal/util"
 )
 
 // SecurityAdapters provides middleware for security chain
 type SecurityAdapters struct {
 	securityChain *ports.SecurityChain
 	logger        logger.StyledLogger
+	config        *config.Config
 }
 
 // CreateChainMiddleware creates middleware that applies the full security chain with enhanced logging
@@ -35,8 +39,13 @@ func (s *SecurityAdapters) CreateChainMiddleware() func(http.Handler) http.Handl
 		return http.HandlerFunc(func(w http.ResponseWriter, r *http.Request) {
 			if s.securityChain != nil {
 				// Create security request from HTTP request
+				// Rate limits are per client IP: the remote port must not be part of the bucket key,
+				// or every new TCP connection starts with a full bucket
+				rl := s.config.Server.RateLimits
+				clientIP := util.GetClientIP(r, rl.TrustProxyHeaders, rl.TrustedProxyCIDRsParsed)
+
 				secReq := ports.SecurityRequest{
-					ClientID:      r.RemoteAddr, // This would normally be extracted better
+					ClientID:      clientIP,
 					Endpoint:      r.URL.Path,
 					Method:        r.Method,
 					BodySize:      r.ContentLength,
@@ -48,8 +57,22 @@ func (s *SecurityAdapters) CreateChainMiddleware() func(http.Handler) http.Handl
 				result, err := s.securityChain.Validate(r.Context(), secReq)
 				if err != nil || !result.Allowed {
 					// Write appropriate error response
-					http.Error(w, "Security validation failed", http.StatusForbidden)
+					switch {
+					case err == nil && result.RateLimit > 0:
+						w.Header().Set("Retry-After", strconv.Itoa(result.RetryAfter))
+						http.Error(w, "Too Many Requests", http.StatusTooManyRequests)
+					case err == nil && strings.Contains(result.Reason, "too large"):
+						http.Error(w, "Request Entity Too Large", http.StatusRequestEntityTooLarge)
+					default:
+						http.Error(w, "Security validation failed", http.StatusForbidden)
+					}
 					return
+				}
+
+				// Content-Length is only the announced size: bound what can actually be read so a
+				// chunked body cannot get past the limit either
+				if maxBody := s.config.Server.RequestLimits.MaxBodySize; maxBody > 0 && r.Body != nil && r.Body != http.NoBody {
+					r.Body = http.MaxBytesReader(w, r.Body, maxBody)
 				}
 			}
 			withAccessLogging.ServeHTTP(w, r)
@@ -127,6 +150,7 @@ func NewApplication(
 	securityAdapters := &SecurityAdapters{
 		securityChain: securityChain,
 		logger:        logger,
+		config:        cfg,
 	}
 
 	// Create route registry
